@@ -41,7 +41,7 @@ func init() {
 	specs["C18"] = &PropSpec{Level: "exploration", QuickRuns: 160, ThorRuns: 3000, Wall: 240 * time.Second, MaxProcs: 2,
 		Rule:   "invariant inside the AT simulation: for each intercepted statement the row diff the database model recorded around the business statement is compared with the before/after images captured at flush time (row set by primary key, values on the recorded columns); WHERE/ORDER/LIMIT/parameter-placement shapes from the generator; distinct = C01 signatures",
 		Assume: atAssume}
-	specs["C02"] = &PropSpec{Level: "fault_enumeration", QuickRuns: 48, ThorRuns: 1200, Wall: 600 * time.Second, MaxProcs: 2,
+	specs["C02"] = &PropSpec{Level: "fault_enumeration", QuickRuns: 48, ThorRuns: 1200, Wall: 120 * time.Second, MaxProcs: 2,
 		Rule:   "run = one generated committing program (1-3 branches, autocommit and explicit local transactions); it is first executed fault-free (probe), then once per single-fault position read off the probe: database error / connection loss at each statement the proxy issued (before-image select, business statement, after-image select, undo_log insert, COMMIT, BEGIN; COMMIT also applied-then-lost), registration refused / lock conflict / unanswered / connection closed for each BranchRegister, status report refused 1,2,4,5 times after a failing COMMIT; evaluation = one (program, fault position) execution; distinct = fault classes",
 		Assume: atAssume}
 }
